@@ -63,6 +63,13 @@ def sample_sentences(rng, n_random):
 def multi_messages(rng):
     """lists of comma-field lists: complete multi-part messages of 2, 3 and 4 parts"""
     out = [[[b'!AIVDM', b'2', b'1', b'1', b'A', nc.P2A, b'0'], [b'!AIVDM', b'2', b'2', b'1', b'A', nc.P2B, b'2']]]
+    # a message whose closing fragment carries NO payload characters (legal: the payload ended exactly at the fragment limit)
+    bits = format(8, '06b') + ''.join(rng.choice('01') for _ in range(40 * 6 - 6))
+    payload, fill = ais.armor(bits)
+    seq = str(rng.randrange(10)).encode()
+    out.append([[b'!AIVDM', b'2', b'1', seq, b'A', payload.encode(), b'0'], [b'!AIVDM', b'2', b'2', seq, b'A', b'', b'0']])
+    out.append([[b'!AIVDM', b'3', b'1', seq, b'B', payload[:30].encode(), b'0'], [b'!AIVDM', b'3', b'2', seq, b'B', b'', b'0'],
+                [b'!AIVDM', b'3', b'3', seq, b'B', payload[30:].encode(), b'0']])
     for n in (2, 3, 4):
         bits = ''.join(rng.choice('01') for _ in range(rng.randrange(30, 60) * 6 - 2))
         bits = format(rng.choice([5, 8, 12, 14, 19, 21, 26]), '06b') + bits[6:]
@@ -418,8 +425,39 @@ def reader_route_cases(ctx):
                                       {'reader_route': True, 'entry': name, 'tbq': tbq, 'lines': [l.hex() for l in lines], 'want': want})
 
 
+def direct_construction_cases(ctx):
+    """The flag of a sentence object built DIRECTLY from the received line (NMEAMessage / AISSentence(raw), from_bytes, from_string
+    -- no factory, hence no stripping) with the line ends a reader hands over (none, LF, CR LF, a blank): the two hex digits after
+    '*' and the bytes before it are the same, so the flag must be what the factory route reports for the bare line."""
+    from pyais.messages import NMEAMessage
+    rng, rep = ctx.rng, ctx.rep
+    sents = [f for f in sample_sentences(rng, 6) if f[0][3:].upper() in (b'VDM', b'VDO')][:10]
+    for f in sents:
+        for wrong in (False, True):
+            p = part_of(f)
+            text = p.text if not wrong else p.text[:-2] + format(int(p.text[-2:], 16) ^ 0x21, '02X').encode()
+            ref = nc.impl_produce(text)
+            if ref[0] != 'Ok':
+                continue
+            want = bool(ref[1][1][6])
+            for suffix in (b'', b'\n', b'\r\n', b' ', b'\r'):
+                rep.case(('direct-construction', text, suffix), kind='direct-construction')
+                for name, mk in (('NMEAMessage(raw)', lambda r: NMEAMessage(r)), ('NMEAMessage.from_bytes', NMEAMessage.from_bytes),
+                                 ('NMEAMessage.from_string', lambda r: NMEAMessage.from_string(r.decode('ascii')))):
+                    try:
+                        got = bool(mk(text + suffix).is_valid)
+                    except Exception as e:      # noqa: BLE001
+                        got = 'raised ' + type(e).__name__
+                    if got != want:
+                        rep.violation({'entry': name, 'component': 'is_valid', 'kind': 'entry-point-dependent-flag'},
+                                      f'{name} of {text + suffix!r}: is_valid = {got}; the factory route flags the same sentence {want}',
+                                      {'direct': True, 'line': (text + suffix).hex(), 'entry': name, 'want': want})
+                        break
+
+
 def run(ctx):
     reader_route_cases(ctx)
+    direct_construction_cases(ctx)
     cases = generate(ctx)
     run_cases(ctx, cases, model_decode_every=3 if ctx.quick else 1)
     no_checksum_cases(ctx)
@@ -439,6 +477,16 @@ def hunt(ctx):
 
 
 def replay(ctx, data):
+    if data.get('direct'):
+        from pyais.messages import NMEAMessage
+        raw = bytes.fromhex(data['line'])
+        mk = {'NMEAMessage(raw)': lambda r: NMEAMessage(r), 'NMEAMessage.from_bytes': NMEAMessage.from_bytes,
+              'NMEAMessage.from_string': lambda r: NMEAMessage.from_string(r.decode('ascii'))}[data['entry']]
+        try:
+            got = bool(mk(raw).is_valid)
+        except Exception as e:      # noqa: BLE001
+            got = 'raised ' + type(e).__name__
+        return None if got == data['want'] else f"{data['entry']} of {raw!r}: is_valid = {got}, the factory route says {data['want']}"
     if data.get('reader_route'):
         import pyais.stream as ps
         from pyais.queue import NMEAQueue
